@@ -147,6 +147,13 @@ Theorem resize_grow_spec : forall (T : Type) (zero : T) (w k : nat) (dval : T) (
 Proof. exact @reinit_grow_lemma. Qed.
 Print Assumptions resize_grow_spec.
 
+(* ... in particular EVERY coordinate that did not exist before gets dval (1/lambda) on the diagonal *)
+Theorem resize_new_diagonal : forall (T : Type) (zero : T) (w k : nat) (dval d : T) (M : seq (seq T)) (j : nat),
+  square (w + 1) M -> (j < k)%coq_nat ->
+  List.nth (w + j) (List.nth (w + j) (reinit_bandit_grads zero true (lin w) (lin (w + k)) dval M) [::]) d = dval.
+Proof. exact @resize_new_diagonal_lemma. Qed.
+Print Assumptions resize_new_diagonal.
+
 (* shrinking by k >= 1: rows and columns w .. w+k-1 are deleted (a principal submatrix) *)
 Theorem resize_shrink_spec : forall (T : Type) (zero : T) (w k : nat) (dval : T) (M : seq (seq T)),
   (0 < k)%coq_nat -> reinit_bandit_grads zero true (lin (w + k)) (lin w) dval M = shrunk w k M.
@@ -169,3 +176,67 @@ Theorem resize_pinned_refuted :
     [:: [:: 5; 1; 0; 0; 1]; [:: 1; 5; 0; 0; 1]; [:: 0; 0; 7; 0; 0]; [:: 0; 0; 0; 7; 0]; [:: 1; 1; 0; 0; 5]]%N.
 Proof. exact resize_pinned_witness. Qed.
 Print Assumptions resize_pinned_refuted.
+
+(* ---- agent level: the sentence of the property, for every history ---- *)
+(* After construction and ANY history of decisions, learn steps, mutations (hook), direct mutations,
+   clones and reloads, sigma_inv is the Sherman–Morrison run over exactly the features chosen since
+   the matrix was last initialised ([segment] = current dimension and those features). Any carrier. *)
+Theorem agent_sigma_is_run : forall (T : Type) (zero one : T) (add sub mul div : T -> T -> T) (rr : bool)
+  (l : T) (ly : layer) (ops : seq (@op T)),
+  List.forallb no_resize ops = true ->
+  sig (run zero one add sub mul div rr (init_params zero one div l ly) ops) =
+  sigma_run zero one add sub mul div l (segment ly ops).1 (segment ly ops).2.
+Proof. exact @Proofs.agent_sigma_is_run. Qed.
+Print Assumptions agent_sigma_is_run.
+
+(* ... hence, over any real field, for every such history whose decisions hand in features of the current
+   size: sigma_inv times (lambda I + sum of outer products of the features chosen since the last
+   initialisation) is the identity, sigma_inv is symmetric, and every arm's bonus radicand is >= 0. *)
+Theorem agent_gram_inverse : forall (F : realFieldType) (lam : F), 0 < lam ->
+  forall (ly : layer) (ops : seq (@op F)) (rr : bool),
+  List.forallb no_resize ops = true -> feats_ok (layer_numel ly, [::]) ops ->
+  let n := (segment ly ops).1 in
+  let vs := (segment ly ops).2 in
+  let S := sig (run 0 1 +%R (@fsub F) *%R (@fdiv F) rr (init_params 0 1 (@fdiv F) lam ly) ops) in
+  [/\ mx_of n (Model.gram 0 +%R *%R lam n vs) *m mx_of n S = 1%:M,
+      (mx_of n S)^T = mx_of n S
+    & forall g, size g = n -> 0 <= Model.quad 0 +%R *%R S g].
+Proof. exact Refine.agent_gram_inverse. Qed.
+Print Assumptions agent_gram_inverse.
+
+(* non-vacuity: a history with two decisions, a mutation that resizes the layer, and one more decision *)
+Example agent_nonvacuous :
+  let ops : seq (@op rat) := [:: Act [:: 1; 0; 1]; Learn; Act [:: 0; 1; 1]; Clone; MutHook (lin 3); Reload; Act [:: 1; 1; 0; 1]] in
+  List.forallb no_resize ops = true /\ feats_ok (layer_numel (lin 2), [::]) ops /\
+  segment (lin 2) ops = (4%N, [:: [:: 1; 1; 0; 1]]).
+Proof. by []. Qed.
+
+(* ---- the instance the correspondence check EXECUTES (generic model over Bignums' BigQ, C19/Check.v) ----
+   read through CoqEAL's proven interpretation bigQ2rat : bigQ -> rat (C19/Exec.v). These two theorems depend on
+   the standard library's axiomatisation of 63-bit machine integers (Uint63 / PrimInt63), on which BigQ is built. *)
+From Bignums Require Import BigQ.
+From CoqEAL Require Import binrat.
+From AgileV Require Import C19.Check C19.Exec.
+
+Theorem executed_gram_inverse : forall (lam : bigQ) (n : nat) (vs : seq (seq bigQ)),
+  0 < bigQ2rat lam -> all (fun v => size v == n) vs ->
+  let S := sigma_run B0 B1 BigQ.add_norm BigQ.sub_norm BigQ.mul_norm BigQ.div_norm lam n vs in
+  [/\ mx_of n (map (map bigQ2rat) (Model.gram B0 BigQ.add_norm BigQ.mul_norm lam n vs)) *m mx_of n (map (map bigQ2rat) S) = 1%:M,
+      (mx_of n (map (map bigQ2rat) S))^T = mx_of n (map (map bigQ2rat) S)
+    & forall g, size g = n -> bq_le B0 (Bquad S g)].
+Proof. exact Exec.executed_gram_inverse. Qed.
+Print Assumptions executed_gram_inverse.
+
+Theorem executed_agent_sigma : forall (lam : bigQ) (ly : layer) (ops : seq (@op bigQ)),
+  List.forallb no_resize ops = true ->
+  sig (List.fold_left Bstep ops (Binit lam ly)) =
+  sigma_run B0 B1 BigQ.add_norm BigQ.sub_norm BigQ.mul_norm BigQ.div_norm lam (segment ly ops).1 (segment ly ops).2.
+Proof. exact Exec.executed_agent_sigma. Qed.
+Print Assumptions executed_agent_sigma.
+
+(* non-vacuity: lambda = 1/2 as a BigQ value is positive under the interpretation, three 2-sized features *)
+Example executed_nonvacuous :
+  let lam := BigQ.of_Q (QArith_base.Qmake (BinNums.Zpos BinNums.xH) (BinNums.xO BinNums.xH)) in
+  0 < bigQ2rat lam /\
+  all (fun v : seq bigQ => size v == 2%N) [:: [:: B1; lam]; [:: B0; B1]; [:: lam; lam]].
+Proof. split; [exact: q2r_gt0 | by []]. Qed.
